@@ -105,6 +105,8 @@ int main(int argc, char **argv) {
         for (int res = 3; res <= 15; res++) {
             CellVec cv = {0};
             cv_pentagon_strata(&cv, res, quick ? 2 : 3); cv_random_cells(&cv, res, quick ? 10 : 60); cv_seam_cells(&cv, res, quick ? 1 : 4); cv_sparse_digit_sample(&cv, res, quick ? 6 : 40); cv_coarse_boundary_sample(&cv, res, quick ? 8 : 40); cv_polar_cells(&cv, res); cv_antimeridian_cells(&cv, res, quick ? 1 : 6);
+            /* along the icosahedron edges inside the pentagons' base cells: sub-trees that spill over onto the neighbouring face */
+            if (res >= 5 && res <= (quick ? 8 : 11)) { CellVec b = {0}; cv_icosa_band_cells(&b, res, quick ? 4 : 8); for (int64_t i = (int64_t)vt_randn(2); i < b.n; i += 2) cv_push(&cv, b.v[i]); cv_free(&b); }
             for (int64_t i = 0; i < cv.n; i++) {
                 if (quick && (i % 2) && (res % 3)) continue;
                 ev_edge_nbhd(cv.v[i]); ev_vertex_nbhd(cv.v[i]);
